@@ -77,18 +77,19 @@ def request_sweep(job):
                 try:
                     c2.request_workflow_status(req)
                     cnt("sweep.accepted")
-                    # terminal is final: a request on a failed / canceled / succeeded workflow that is NOT refused (the
-                    # same status again) must not change anything either (succeeded -> failed is the documented exception)
-                    if before["status"] in ("failed", "canceled", "succeeded") and not (before["status"] == "succeeded" and req == "failed"):
+                    # terminal is final: on a failed / canceled / succeeded workflow a request for any OTHER status is forbidden
+                    # and must be refused with an error (succeeded -> failed is the documented exception; asking for the same
+                    # status again is not forbidden, and what it does to a task acknowledged late is not judged)
+                    if before["status"] in ("failed", "canceled", "succeeded") and req != before["status"] \
+                            and not (before["status"] == "succeeded" and req == "failed"):
                         cnt("sweep.accepted_on_terminal")
                         after = snap(c2)
-                        if canon(after) != canon(before):
-                            viols.append(dict(prop="C04", kind="accepted_request_changed_terminal_state", subject=req, cause=None,
-                                              detail="request %r on a %s workflow raised nothing and changed the persisted state "
-                                              "(task statuses %r -> %r)" % (req, before["status"],
-                                                                           [r.get("status") for r in before["state"]["sequence"]],
-                                                                           [r.get("status") for r in after["state"]["sequence"]]),
-                                              step=run.step))
+                        viols.append(dict(prop="C04", kind="forbidden_request_accepted_on_terminal", subject=req, cause=None,
+                                          detail="request %r on a %s workflow raised nothing (state changed: %s; task statuses %r -> %r)"
+                                          % (req, before["status"], canon(after) != canon(before),
+                                             [r.get("status") for r in before["state"]["sequence"]],
+                                             [r.get("status") for r in after["state"]["sequence"]]),
+                                          step=run.step))
                     continue
                 except Exception as e:
                     # any error is a rejection (InvalidWorkflowStatusTransition for forbidden transitions,
@@ -109,8 +110,12 @@ def request_sweep(job):
 
         # every third history has pause / cancel / resume requests of its own, so that transitional and canceled states
         # (with late acknowledgements and reports) are among the states swept
-        inj = workloads.Injector(h64(seed, "inj"), dict(req=0.12, max_req=3, reqs=["pausing", "canceling", "resuming", "canceled", "paused"])) \
+        inj = workloads.Injector(h64(seed, "inj"), dict(req=0.12, mid_req=0.2, max_req=3, reqs=["pausing", "canceling", "resuming", "canceled", "paused"])) \
             if seed % 3 == 2 else None
+        if inj is not None:
+            # (mid_req: a request may also land between a poll's answer and the provider's acknowledgements, which then arrive
+            # late - e.g. at a workflow that is already canceled)
+            run.mid_poll_hook = inj.mid
 
         def hook(r, phase):
             if inj is not None:
